@@ -310,3 +310,19 @@ pub fn colon_comment_paren(input: &str) -> bool {
 pub fn is_type_head_word(t: &str) -> bool {
     matches!(t, "class" | "record" | "interface" | "object" | "=" | "helper" | "helper for" | "sealed" | "abstract" | "packed" | "to" | "of" | "array" | "set" | "reference" | "function" | "procedure")
 }
+
+/// signature of a known finding: a comment on the same line directly after a *conditional*
+/// directive (`{$ENDIF} // why`); the wrapper measures it as if it continued the code line before
+/// the directive
+pub fn comment_after_conditional_directive(input: &str) -> bool {
+    let t = refscan::scan(input);
+    t.windows(2).any(|w| {
+        w[0].kind == RK::Directive
+            && matches!(w[1].kind, RK::LineComment | RK::BlockComment)
+            && !input[w[0].end..w[1].start].contains(['\n', '\r'])
+            && {
+                let d = w[0].text(input).trim_start_matches(['{', '(', '*']).trim_start_matches('$').to_ascii_lowercase();
+                ["ifdef", "ifndef", "ifopt", "if ", "if(", "else", "elseif", "endif", "ifend"].iter().any(|p| d.starts_with(p))
+            }
+    })
+}
